@@ -3,9 +3,15 @@ package props
 import (
 	"context"
 	"encoding/json"
+	"errors"
 	"fmt"
+	"io"
+	"net"
+	"net/http"
+	"os"
 	"sort"
 	"strings"
+	"syscall"
 
 	mcp "trpc.group/trpc-go/trpc-mcp-go"
 	"verif.local/engine/explore"
@@ -56,6 +62,7 @@ func init() {
 		c.Enumerate("c01/ids")
 		c.Enumerate("c01/backpressure")
 		c.Enumerate("c01/sizes")
+		c.Enumerate("c01/lost-response")
 		for _, mode := range []string{"sj", "ss", "sl", "sd", "ls", "io"} {
 			c.DFSBoth(fmt.Sprintf("c01/%s/1c-2x1", mode), explore.Bounds{Preempt: c.Pick(2, 4), Dev: c.Pick(1, 2)}, map[bool]int{true: 0, false: 1}[mode == "ls" || mode == "io"])
 			c.DFS(fmt.Sprintf("c01/%s/mixed", mode), explore.Bounds{Preempt: c.Pick(1, 3), Dev: 1, POR: true})
@@ -760,4 +767,142 @@ func c01SizeEval(tier string, i int) CaseResult {
 func init() {
 	RegisterEnum(&Enum{Name: "c01/sizes", Doc: "answers whose frame crosses the 4 KiB, 64 KiB and 1 MiB boundaries, for CallTool, ReadResource, GetPrompt and ListTools on every transport/mode: each of two successive calls returns its own complete answer and runs its handler once",
 		Count: func(string) int { return len(c01SizeCases()) }, Eval: c01SizeEval})
+}
+
+// ---- a response lost with its connection -----------------------------------------------------
+//
+// "Absent a configured retry the server-side handler runs exactly once per request; no call ever
+// receives ... a duplicate": the server reads and handles a request, then the keep-alive connection
+// dies before the first byte of the answer reaches the client (memnet.LoseResponses, which also
+// does what net/http's Transport does for requests it considers replayable). The call fails; nothing
+// below the caller sends the request a second time.
+
+var c01LostErrs = []struct {
+	Name string
+	Err  error
+}{
+	{"eof", io.EOF},
+	{"reset", &net.OpError{Op: "read", Net: "tcp", Err: os.NewSyscallError("read", syscall.ECONNRESET)}},
+	{"closed-idle", errors.New("http: server closed idle connection")},
+}
+
+var c01LostOps = []string{"CallTool", "GetPrompt", "ReadResource"}
+
+func c01LostEval(tier string, i int) CaseResult {
+	modes := []string{"sj", "ss", "sl", "sd", "ls"}
+	mode := modes[i%len(modes)]
+	i /= len(modes)
+	op := c01LostOps[i%len(c01LostOps)]
+	le := c01LostErrs[i/len(c01LostOps)]
+	cr := CaseResult{Desc: fmt.Sprintf("mode=%s op=%s: the response is lost with its connection (%s), no retry configured", mode, op, le.Name), Nontrivial: true}
+	var viol []explore.Violation
+	obs := &hx.Log{}
+	k := func(kind string) string { return fmt.Sprintf("%s:%s:%s:%s", kind, mode, op, le.Name) }
+	res := vsched.Run(vsched.Config{}, func() {
+		r := NewRig(mode)
+		calls := &hx.Log{}
+		r.EchoTool(calls)
+		r.RegisterPrompt(&mcp.Prompt{Name: "echo", Arguments: []mcp.PromptArgument{{Name: "nonce"}}}, func(ctx context.Context, req *mcp.GetPromptRequest) (*mcp.GetPromptResult, error) {
+			calls.Add("%s", req.Params.Arguments["nonce"])
+			return &mcp.GetPromptResult{Description: "echo:" + req.Params.Arguments["nonce"], Messages: []mcp.PromptMessage{}}, nil
+		})
+		for _, n := range []string{"L1", "L2"} {
+			n := n
+			r.RegisterResource(&mcp.Resource{Name: n, URI: "res://" + n}, func(ctx context.Context, req *mcp.ReadResourceRequest) (mcp.ResourceContents, error) {
+				calls.Add("%s", n)
+				return mcp.TextResourceContents{URI: "res://" + n, Text: "echo:" + n}, nil
+			})
+		}
+		r.Start()
+		cl, err := r.Connect()
+		if err != nil {
+			viol = append(viol, V("setup-handshake-fails", "setting the scenario up with well-behaved peers fails: %v", err))
+			return
+		}
+		vsched.Quiesce()
+		method := map[string]string{"CallTool": "tools/call", "GetPrompt": "prompts/get", "ReadResource": "resources/read"}[op]
+		issue := func(nonce string) (string, error) {
+			ctx := context.Background()
+			switch op {
+			case "CallTool":
+				rq := &mcp.CallToolRequest{}
+				rq.Params.Name = "echo"
+				rq.Params.Arguments = map[string]interface{}{"nonce": nonce}
+				o, e := cl.CallTool(ctx, rq)
+				return TextOf(o), e
+			case "GetPrompt":
+				rq := &mcp.GetPromptRequest{}
+				rq.Params.Name = "echo"
+				rq.Params.Arguments = map[string]string{"nonce": nonce}
+				o, e := cl.GetPrompt(ctx, rq)
+				if o != nil {
+					return o.Description, e
+				}
+				return "", e
+			default:
+				rq := &mcp.ReadResourceRequest{}
+				rq.Params.URI = "res://" + nonce
+				o, e := cl.ReadResource(ctx, rq)
+				if o != nil && len(o.Contents) == 1 {
+					if t, ok := o.Contents[0].(mcp.TextResourceContents); ok {
+						return t.Text, e
+					}
+				}
+				return "", e
+			}
+		}
+		r.Fab.LoseResponses(1, func(q *http.Request) bool {
+			if q.Method != http.MethodPost || q.GetBody == nil {
+				return false
+			}
+			b, _ := q.GetBody()
+			body, _ := io.ReadAll(b)
+			return strings.Contains(string(body), `"`+method+`"`)
+		}, le.Err)
+		var out string
+		var cerr error
+		done := &hx.Flag{}
+		vsched.Go("caller", func() { out, cerr = issue("L1"); done.Set() })
+		vsched.Quiesce()
+		arrivals := 0
+		for _, x := range r.Fab.Log() {
+			if x.Method == http.MethodPost && strings.Contains(string(x.ReqBody), `"`+method+`"`) {
+				arrivals++
+			}
+		}
+		runs := count(calls.Items(), "L1")
+		switch {
+		case r.Fab.Lost != 1:
+			viol = append(viol, V("harness", "the fault was not injected (%d responses lost)", r.Fab.Lost))
+		case !done.Get():
+			viol = append(viol, V(k("lost-response-call-hangs"), "the call whose response was lost with its connection never returned; blocked: %v", vsched.LiveThreads()))
+		}
+		if runs != 1 {
+			viol = append(viol, V(k("lost-response-handler-runs"), "no retry is configured, the response was lost once: the server-side handler ran %d times for the one call", runs))
+		}
+		if arrivals != 1 {
+			viol = append(viol, V(k("lost-response-resent"), "no retry is configured, the response was lost once: the request arrived %d times at the server", arrivals))
+		}
+		if done.Get() && cerr == nil && mode != "ls" {
+			viol = append(viol, V(k("lost-response-result"), "the response never reached the client, yet the call returned %q without an error", out))
+		}
+		obs.Add("runs=%d arrivals=%d err=%v", runs, arrivals, cerr != nil)
+		if done.Get() {
+			o2, e2 := issue("L2")
+			if e2 != nil || o2 != "echo:L2" {
+				viol = append(viol, V(k("lost-response-later-call"), "after one lost response a later call on the same client returned %q, %v", o2, e2))
+			}
+		}
+		cl.Close()
+	})
+	o := finishOutcome(res, obs, viol, true)
+	cr.ObsKey = cr.Desc + "|" + o.ObsKey
+	cr.Violations = o.Violations
+	cr.Broken = o.Broken
+	return cr
+}
+
+func init() {
+	RegisterEnum(&Enum{Name: "c01/lost-response", Doc: "the server handles a request, the keep-alive connection dies before the first byte of the answer (EOF / reset / closed idle connection), no retry configured: 5 HTTP modes x {CallTool, GetPrompt, ReadResource}; the handler ran once, the request arrived once, the call fails, a later call gets its own answer",
+		Count: func(string) int { return 5 * len(c01LostOps) * len(c01LostErrs) }, Eval: c01LostEval})
 }
